@@ -44,6 +44,13 @@ def DB.finalize (d : DB) (f : Fin) : DB :=
     lfb := f.round,
     blocks := (f.round, f.nodes) :: d.blocks.filter (fun e => e.1 != f.round) }
 
+/-- Recovering from an incorrectly finalized block (`finalizeRound`, protocol_round.go "rolling back finalized
+block"): `SetLatestOwnFinalizedBlockRound(b.Round); SetLatestFinalizedBlock(b)` with the common ancestor `b`. The
+node store, the dead-node records and the summary ring are NOT rewound: the records of the rolled-back blocks stay
+until the blocks of the winning fork are finalized for the same rounds and `RecordDeadNodes` overwrites them. -/
+def DB.rollback (d : DB) (r : Nat) : DB :=
+  { d with lfb := r, blocks := d.blocks.filter (fun e => e.1 ≤ r) }
+
 /-- `PNodeDB.PruneBelowVersion(v)`: delete every node listed in a dead-node record of a round `< v`, and those
 records. Returns the number of deleted keys as `PruneStats.Deleted` counts them (listed keys, present or not). -/
 def DB.pruneBelow (d : DB) (v : Nat) : DB × Nat :=
